@@ -1235,3 +1235,15 @@ M("c07_in_another_chunk_commit_revert", ["C07"], ["C07.R6"], [
                         return Ok(ptr);""", """                    self.chunk.set(chunk.raw);
                     if let Some(ptr) = f(chunk.raw, layout) {
                         return Ok(ptr);""")])
+
+M("c14_claimed_reported_as_alloc_failure_vec", ["C14"], ["C14.R5"], [
+    ("src/bump_vec.rs", """                    return Err(if self.allocator.is_claimed() {
+                        E::claimed()
+                    } else {
+                        E::allocation(new_layout)
+                    });""", """                    return Err(E::allocation(new_layout));""")])
+M("c14_claimed_reported_as_alloc_failure_dyn", ["C14"], ["C14.R5"], [
+    ("src/traits/bump_allocator_typed.rs", """        let Ok(range) = bump.prepare_allocation_rev(layout) else {
+            return Err(request_failed(&bump, layout));""", """        let Ok(range) = bump.prepare_allocation_rev(layout) else {
+            return Err(E::allocation(layout));""")])
+
